@@ -221,6 +221,8 @@ class C43(Check):
         return be.case_strategy(5)
 
     def enumerate(self, tier):
+        if os.environ.get("C43_DEV_NO_ENUM"):  # development aid: sensitivity of the generated part alone
+            return
         # fixed edge table: every pair of small / boundary integers through the two-operand families
         edge = [0, 1, -1, 2, -3, 4, -8, 9, 27, 64, -(2 ** 32), 2 ** 63, 2 ** 64 - 1, -(2 ** 64), 2 ** 64 + 1, 3 ** 41,
                 -(10 ** 40), 2 ** 127 - 1]
